@@ -5,6 +5,7 @@ from __future__ import annotations
 from asyncio import (
     FIRST_COMPLETED,
     CancelledError,
+    Future,
     ensure_future,
     gather,
     get_running_loop,
@@ -100,7 +101,6 @@ from .values import (
 )
 
 if TYPE_CHECKING:
-    from asyncio import Future
     from typing import TypeAlias, TypeGuard
 
     from ..pyutils import UndefinedType
@@ -735,6 +735,9 @@ class Executor(Generic[TContext]):
             result = resolve_fn(source, info, **args)
 
             if self.is_awaitable(result):
+                if isinstance(result, Future) and not result.done():
+                    # work that is already running when it is handed over
+                    self.track_running_future(result)
                 return self.complete_awaitable_value(
                     return_type,
                     field_details_list,
@@ -1031,6 +1034,19 @@ class Executor(Generic[TContext]):
 
         The base executor produces no incremental work, so this is a no-op.
         """
+
+    def track_running_future(self, future: Future[Any]) -> None:
+        """Track a future or task that a resolver has handed over already running.
+
+        The coroutine that is going to await it may be cancelled before it has
+        started, in which case nothing else would cancel or await the running
+        work: it is cancelled together with the pending incremental work, and the
+        hook signaling that all asynchronous work has finished waits for it.
+        """
+        self.track_incremental_future(future)
+        background_futures = self.background_futures
+        background_futures.add(future)
+        future.add_done_callback(background_futures.discard)
 
     def track_incremental_future(self, future: Future[Any]) -> None:
         """Register a pending future belonging to incremental work.
